@@ -23,6 +23,8 @@ def _g(**kw):
 _G_CFG = _g(Kinds='{"cfg"}', MaxLen=0, Rels='{"slash", "noslash"}')
 # every segment sequence up to length 2 x base x preserve_path x engine
 _G_SEQ2 = _g()
+# every segment sequence up to length 3 on one engine
+_G_SEQ3 = _g(MaxLen=3, Engines='{"olla"}')
 # dot-segment spellings three deep under the non-trivial bases, both route prefixes
 _G_DOTS3 = _g(Alphabet=_DOTS, MaxLen=3, BaseIds='{"base", "nested"}', Preserves="{TRUE}", Engines='{"olla"}', Prefixes=_PFX)
 # target form x route prefix x query
@@ -61,7 +63,7 @@ def register(PROPS, HARNESS_PKGS):
         "parts": [{
             "name": "urlpath",
             "mc": [{"module": "UrlPath", "cfg": "UrlPath_mc.cfg", "quick_params": {"MaxLen": 3}, "thorough_params": {"MaxLen": 4}}],
-            "quick": {"gen": [_G_CFG, _G_SEQ2, _G_DOTS3, _G_FORMS]},
+            "quick": {"gen": [_G_CFG, _G_SEQ2, _G_SEQ3, _G_DOTS3, _G_FORMS]},
             "thorough": {"gen": [_G_CFG, _T_SEQ3, _T_SEQ4, _T_DEEP5, _T_FORMS]},
             "pkg": "internal/app", "test": "TestVerif_UrlPath",
             "harness_dirs": ["app"],
